@@ -393,7 +393,12 @@ namespace ipr {
          {
             static constexpr const char* syntax[] = { "\0\0", "()", "{}", "[]", "<>" };
             const auto delimiters = syntax[util::rep(e.delimiters())];
-            pp << token(delimiters[0]) << xpr_expr(e.expr()) << token(delimiters[1]);
+            // Delimiter::Nothing has no delimiter characters: do not write NUL bytes.
+            if (delimiters[0] != '\0')
+               pp << token(delimiters[0]);
+            pp << xpr_expr(e.expr());
+            if (delimiters[1] != '\0')
+               pp << token(delimiters[1]);
          }
          void visit(const Expr& e) override
          {
